@@ -97,7 +97,7 @@ class VMDK(AlignedStream):
 
         disk_idx = bisect_right(self._disk_offsets, sector)
 
-        while count > 0:
+        while count > 0 and disk_idx < len(self.disks):
             disk = self.disks[disk_idx]
 
             disk_remaining_sectors = disk.sector_count - (sector - disk.sector_offset)
